@@ -42,6 +42,9 @@ def tswin(seed, n):
 def ideallat(seed, n):
     return _mk("ideallat", "hc", gen_hc.ideallat_case, n, seed * 101 + 19)
 
+def cadence(seed, n):
+    return _mk("cadence", "hc", gen_hc.cadence_case, n, seed * 101 + 20)
+
 def hostile(seed, n):
     return _mk("hostile", "hc", gen_hc.hostile_case, n, seed * 101 + 6)
 
